@@ -323,8 +323,11 @@ class DataFormat(object):
         if name == KEY_ENCODING:
             try:
                 codecs.lookup(value)
+                # Ensure that the encoding can be used for text, unlike for example "base64" or "rot13".
+                "".encode(value)
             except (LookupError, ValueError):
-                # NOTE: ValueError is raised for names containing a null character.
+                # NOTE: ValueError is raised for names containing a null character, UnicodeError
+                # (a ValueError) by the "undefined" codec.
                 raise errors.InterfaceError(
                     "value for data format property %s is %s but must be a valid encoding"
                     % (_compat.text_repr(KEY_ENCODING), _compat.text_repr(self.encoding)),
@@ -491,7 +494,8 @@ class DataFormat(object):
                         % (name_for_errors, _compat.text_repr(value)),
                         location,
                     )
-            except tokenize.TokenError as error:
+            except (tokenize.TokenError, SyntaxError) as error:
+                # NOTE: SyntaxError includes IndentationError raised for multi line values with odd indentation.
                 raise errors.InterfaceError(
                     "value for %s must be a valid Python token: %s (error: %s)"
                     % (name_for_errors, _compat.text_repr(value), error),
